@@ -22,7 +22,7 @@ BODY = []
 _CACHE = {}
 
 REQ_FORMS = ["{T}", "'{T}'"]
-OPT_FORMS = ["Optional[{T}]", "{T} | None", "Union[None, {T}]", "Optional['{T}']", "'{T} | None'", "'Optional[{T}]'", "Union['{T}', None]"]
+OPT_FORMS = ["Optional[{T}]", "{T} | None", "Union[None, {T}]", "None | {T}", "'None | {T}'", "Optional['{T}']", "'{T} | None'", "'Optional[{T}]'", "Union['{T}', None]"]
 LAYOUTS = ["kwonly", "poskw", "kwonly_first", "two", "method"]
 
 
